@@ -8,9 +8,34 @@ ROOT = os.path.dirname(os.path.dirname(os.path.abspath(__file__)))
 CHECKS = {
     "C01": ("exploration",
             "generated-scenario search in a wire lab (real worker thread, scripted raw-socket peers) with an exact content oracle",
-            "Each scenario drives one keep-alive client connection through a live worker's HTTP listener to an HTTP/1.1 mock backend: 1..4 POST requests with request and response bodies of boundary-biased sizes (around buffer_size 16393, 16384, 32768, 65535/65536, up to 256 KiB; thorough 6 MiB) of keyed content, framed Content-Length / chunked with generated chunk sizes / close-delimited, under four generated I/O scripts (dribbles, token splits, pauses, read stalls, bounded socket buffers). Every body must arrive byte-identical and every message end cleanly; each request reaches the backend exactly once. 16 OS-process labs; a failure is re-run on a fresh worker and reported only if it reproduces. Only the HTTP/1.1 -> HTTP/1.1 pair is built so far.",
-            "HTTP/2 frontends (TLS) and h2c backends, concurrent streams, trailers and DATA padding are not exercised yet; kernel segmentation and epoll wake-up order are shaped, not owned; splice off.",
+            "Each scenario drives one keep-alive client connection through a live worker's HTTP listener to an HTTP/1.1 mock backend: 1..4 POST requests with request and response bodies of boundary-biased sizes (around buffer_size 16393, 16384, 32768, 65535/65536, up to 256 KiB; thorough 6 MiB) of keyed content, framed Content-Length / chunked with generated chunk sizes / close-delimited, under four generated I/O scripts (dribbles, token splits, pauses, read stalls, bounded socket buffers). Every body must arrive byte-identical and every message end cleanly; each request reaches the backend exactly once. 16 OS-process labs; a failure is re-run on a fresh worker and reported only if it reproduces. A second sub-check (h2pairs) drives one HTTP/2-over-TLS client connection (own frame codec, HPACK via loona-hpack, rustls) with 1..8 concurrent POST streams to an HTTP/1.1 or an h2c mock backend with generated DATA frame sizes and padding on both HTTP/2 legs: exact bodies per stream, END_STREAM seen, no cross-stream mix-up, plus the HTTP/2 limits ledger.",
+            "The HTTP/1.1 -> h2c pair and trailers are not exercised; kernel segmentation and epoll wake-up order are shaped, not owned; splice off; three HTTP/2 shapes are known findings (frame storm, head-of-line stall when both peers withhold credit, streams attached before the backend's SETTINGS) excluded by construction with strict reproducers under C14.",
             "DESIGN.md §4 C01"),
+    "C02": ("fault_enumeration",
+            "generated fault-scenario search in a wire lab (real worker, scripted HTTP/1.1 client and programmable mock backends) against the admissible answer set per injected cause",
+            "Each scenario is a sequence of requests on one or more client connections through a live worker with two HTTP listeners (default answers; keep-alive answer templates) to clusters that are healthy, missing, refusing, closing at accept, denied or per-IP limited, with an injected cause per request (backend closes without answer / mid-request / cuts head or body / stalls / answers late / garbage / answers before the body ended; client stops mid head or body). Oracle per request: exactly one answer, status in the property's set for the cause, proxy-made answers well-formed, a relayed 200 answers this request with the exact body, after a cut either a sole 502/504 or an abort whose bytes are a prefix of the backend's, time to answer within the governing timeout + 3 s, self-answered requests never reach a backend, the next request and a final probe are served. Failures are re-run twice on a fresh lab.",
+            "HTTP/1.1 client and backend only (no HTTP/2, TLS, 421, connect timeout against a black-holed address); five shapes are known findings excluded by construction with strict reproducers.",
+            "DESIGN.md §4 C02"),
+    "C03": ("exploration",
+            "grammar-based mutation of valid HTTP/1.1 request streams through a live worker; differential oracle: a strict RFC 9112 reader plus 14 permissive reader variants must agree on what each backend connection received, and it must be what sozu stamped",
+            "Generated pipelined request streams (Content-Length / chunked bodies, embedded request text in bodies) are mutated by 19 smuggling mutators (CL/TE conflicts and variants, duplicate and malformed lengths, bare LF/CR, obs-fold, whitespace before colon, invalid bytes in names/values, chunk extensions and sizes, HTTP/1.0 + TE, ...) plus byte-level mutations and sent at generated segmentations through a live worker to recording backends of two clusters. Oracle on the bytes each backend connection received: accepted by the strict reader with all variants agreeing on boundaries; every request found carries exactly one Sozu-Id (was emitted by sozu as a head), the routed cluster's host, method/target/body equal to the client message with that marker; no CR/LF/NUL/CTL in forwarded values, every forwarded field is the client's or one of sozu's documented additions; the client receives a readable response sequence with no response delivered twice. An in-process sub-check guards the readers themselves.",
+            "HTTP/1.1 frontend -> HTTP/1.1 backend only; the HTTP/2 half of the property and a coverage-guided byte fuzzer are not built; CONNECT / Upgrade / Expect are not generated; seven shapes (mostly in the kawa parser) are known findings excluded by construction with strict reproducers.",
+            "DESIGN.md §4 C03"),
+    "C13": ("exploration",
+            "generated header-list search in a wire lab with an exact field-by-field oracle on what the backend received and what the client received",
+            "One scenario = 1..3 HTTP/1.1 requests (keep-alive) through one of five plain-HTTP listeners (default; elide/send X-Real-IP; custom correlation header and sticky name; expect_proxy with hand-built PROXY-v2 headers, IPv4/IPv6 sources) from a generated 127.a.b.c source to a plain, a sticky or a header-editing cluster. Heads mix proxy-managed names, cookies incl. the sticky name and case variants, Connection-named and hop-by-hop fields, duplicates, long/empty/obs-text values, chunked bodies with trailers. Oracle byte-exact on both sides: method, target, body; every end-to-end field intact and in order; X-Forwarded-For / Forwarded = client's elements + the real peer; X-Real-IP per listener flags; X-Forwarded-Proto/Port; exactly one request id and one correlation header (a ULID); sticky crumbs removed, others intact; nothing protected arrives through trailers; responses intact plus exactly the documented additions.",
+            "HTTP/1.1 on both sides only: HTTP/2 conversion, TLS, HSTS and direct IPv6 peers are not exercised.",
+            "DESIGN.md §4 C13"),
+    "C14": ("exploration",
+            "generated SETTINGS / WINDOW_UPDATE schedule search with byte-accounting scripted HTTP/2 peers (own frame codec) on both sides of a live worker; ledger invariants plus completion",
+            "Each scenario: an HTTP/2-over-TLS client and (half the time) an h2c mock backend, each with generated SETTINGS (initial window 0 / 1 / 9 / 16383 / 16384 / 65535 / up to 2^31-1, max frame size, max concurrent streams, header table size), generated WINDOW_UPDATE schedules (drips, bursts, stream-only, connection-only), optional mid-connection SETTINGS that shrink windows, slow backend SETTINGS, 1..4 streams with bodies up to 120000 bytes both ways, generated DATA frame sizes and padding. The peers keep their own ledger: any DATA beyond the stream or connection window they granted, any frame above their MAX_FRAME_SIZE, more open streams than their MAX_CONCURRENT_STREAMS, illegal stream ids or header blocks that do not decode is a violation; every body must be complete and byte-identical once the schedule has granted enough (a schedule always ends in automatic replenishment). Failures are re-run twice on a fresh lab.",
+            "Liveness is asserted only when at most one side withholds credit or there is a single stream (the two-sided case is a known finding: head-of-line stall); generated cases stay below 3000 DATA frames per direction (frame-storm finding) and open streams one after the other when the backend's stream limit is below the stream count (attached-before-SETTINGS finding); strict reproducers cover the three.",
+            "DESIGN.md §4 C14"),
+    "C08": ("exploration",
+            "stateful generated command-sequence search against a live worker (real Server in a thread, real command channel) with a ConfigState reference model and live probes",
+            "Each scenario starts a fresh worker and sends 1..3 bursts of commands over the command channel (all 40 mutating / query / control verb classes, valid and invalid, bursts written in one write so the worker reads them as one batch, port blockers to make activations fail, optional client traffic in between), then a closing Status, queries, probes and a stop verb (SoftStop or HardStop, possibly with a tail of commands in the same write). Oracle: every id sent gets exactly one final answer and no unknown id is answered; the worker's queryable view (QueryClusterById for five ids, QueryClustersHashes) equals a ConfigState fed the commands answered OK; connect() succeeds exactly on the addresses the model has an active listener on (ownership checked through /proc); a routed GET for a plain frontend reaches one of the model's backends; the stop verb gets one OK and the worker thread ends within 4 s; a worker panic anywhere is a failure. Failures are re-run twice on new workers.",
+            "Listeners are added inactive then activated, as the CLI does; SCM hand-over only at the end of a burst; interleaved traffic is not judged beyond panics; routing negatives not checked. Eight shapes are known findings excluded by construction with strict reproducers.",
+            "DESIGN.md §4 C08"),
     "C09": ("fault_enumeration",
             "generated fault-script search over a real CommandHub with scripted fake workers and real unix-socket clients",
             "Each scenario runs the real main-process CommandHub in a thread (worker_timeout 1 s) with 1..3 fake workers registered through register_worker and 1..3 real clients on the command socket; per (worker, request) a generated behaviour (ok, failure, silent, channel closed, duplicate ok, late ok, processing then ok, processing only, unknown id) with generated arrival delays, over mutating, query, status, load-state and stop verbs. Oracle: exactly one final answer per request within the deadline, never another client's, OK iff every worker alive at dispatch answered successfully, the hub thread stays alive, answers a final Status and stops.",
